@@ -17,6 +17,7 @@ fn main() {
         "c05" => checks::c05::main(&a),
         "c07" => checks::c07::main(&a),
         "c08" => checks::c08::main(&a),
+        "c10" => checks::c10::main(&a),
         "c12" => checks::c12::main(&a),
         "c13" => checks::c13::main(&a),
         "c20" => checks::c20::main(&a),
